@@ -73,5 +73,44 @@ pub mod controls {
 '''
 
 
+TYPES = ["Coord", "Point", "Line", "LineString", "Polygon", "MultiPoint", "MultiLineString", "MultiPolygon",
+         "Rect", "Triangle", "Geometry", "GeometryCollection"]
+
+PROBES = r"""
+// Autoref specialisation: `(&Probe(a, b)).go()` resolves to the `Yes` impl when the pair implements the trait and to the
+// `No` impl otherwise, so every root compiles and the instance graph shows which pairs exist and what they resolve to.
+pub struct PI<'a, A, B>(pub &'a A, pub &'a B);
+pub trait YesI { fn go(&self) -> bool; }
+impl<'a, A: geo::Intersects<B>, B> YesI for PI<'a, A, B> { fn go(&self) -> bool { self.0.intersects(self.1) } }
+pub trait NoI { fn go(&self) -> bool; }
+impl<'a, A, B> NoI for &PI<'a, A, B> { fn go(&self) -> bool { no_impl() } }
+
+pub struct PC<'a, A, B>(pub &'a A, pub &'a B);
+pub trait YesC { fn go(&self) -> bool; }
+impl<'a, A: geo::Contains<B>, B> YesC for PC<'a, A, B> { fn go(&self) -> bool { self.0.contains(self.1) } }
+pub trait NoC { fn go(&self) -> bool; }
+impl<'a, A, B> NoC for &PC<'a, A, B> { fn go(&self) -> bool { no_impl() } }
+
+pub struct PD<'a, A, B>(pub &'a A, pub &'a B);
+pub trait YesD { fn go(&self) -> f64; }
+impl<'a, A, B> YesD for PD<'a, A, B> where geo::Euclidean: geo::Distance<f64, &'a A, &'a B> {
+    fn go(&self) -> f64 { <geo::Euclidean as geo::Distance<f64, &'a A, &'a B>>::distance(&geo::Euclidean, self.0, self.1) }
+}
+pub trait NoD { fn go(&self) -> f64; }
+impl<'a, A, B> NoD for &PD<'a, A, B> { fn go(&self) -> f64 { no_impl(); 0.0 } }
+
+#[inline(never)]
+pub fn no_impl() -> bool { false }
+"""
+
+
 def generate():
-    return "#![allow(dead_code, unused)]\npub fn root_dummy() {}\n" + CONTROLS
+    out = ["#![allow(dead_code, unused)]", "use geo_types::*;", PROBES]
+    for a in TYPES:
+        for b in TYPES:
+            out.append("pub fn root_intersects__%s__%s(a: &%s<f64>, b: &%s<f64>) -> bool { (&PI(a, b)).go() }" % (a, b, a, b))
+            out.append("pub fn root_contains__%s__%s(a: &%s<f64>, b: &%s<f64>) -> bool { (&PC(a, b)).go() }" % (a, b, a, b))
+            out.append("pub fn root_distance__%s__%s(a: &%s<f64>, b: &%s<f64>) -> f64 { (&PD(a, b)).go() }" % (a, b, a, b))
+    for a in TYPES:
+        out.append("pub fn root_relate__%s(a: &%s<f64>, b: &%s<f64>) -> geo::relate::IntersectionMatrix { geo::Relate::relate(a, b) }" % (a, a, a) if a != "Coord" else "")
+    return "\n".join(out) + "\n" + CONTROLS
